@@ -51,9 +51,14 @@ impl SvgOptions {
         }
         let color = color.as_bytes();
         let color = color.chunks_exact(2);
-        let color = color.map(|x| u8::from_str_radix(std::str::from_utf8(x).unwrap(), 16).unwrap());
+        let color = color.map(|x| {
+            std::str::from_utf8(x)
+                .ok()
+                .and_then(|x| u8::from_str_radix(x, 16).ok())
+        });
 
-        let mut color = color.collect::<Vec<u8>>();
+        // Malformed colors are ignored by the setters (length != 4)
+        let mut color = color.collect::<Option<Vec<u8>>>().unwrap_or_default();
         if color.len() == 3 {
             color.push(255);
         }
@@ -213,7 +218,7 @@ pub fn qr_svg(content: &str, options: SvgOptions) -> String {
         builder.image_gap(gap);
     }
 
-    if options.image_size.len() == 2 {
+    if options.image_position.len() == 2 {
         let x = options.image_position[0];
         let y = options.image_position[1];
         builder.image_position(x, y);
